@@ -27,6 +27,7 @@ ASSUMPTIONS = [
 ]
 EXHAUSTIVE = {'quick': True, 'thorough': True}
 PYOPT_KINDS = ('whole_p8',)
+CLOCALE_KINDS = ('whole_p8',)
 
 
 def plan(tier, seed):
